@@ -115,7 +115,8 @@ def rand_plan(rng, dom, kinds, nsteps, tag="", max_width=8):
             # the printed name of a box does not identify it: several boxes of
             # one diagram may share a name and arity and differ in their function
             shown = name if rng.random() < .6 else "op{}{}".format(n_in, n_out)
-            step = ("box", off, n_in, n_out, token_function(name, n_out), shown)
+            step = ("box", off, n_in, n_out,
+                    token_function(name, n_out, named=rng.random() < .5), shown)
             kinds[off:off + n_in] = ["t"] * n_out
         elif r < .58 and width >= 2:
             off = rng.randint(0, width - 2)
@@ -263,6 +264,7 @@ def plan_case(rng, ctx):
     for step in plan:
         if step[0] == "box":
             ctx.count("arity_{}x{}".format(step[2], step[3]))
+    call_again(rng, ctx, diagram, dom, plan, inputs, got, witness)
     # every prefix of the diagram is a diagram too: call it as well
     if len(diagram) >= 2 and rng.random() < .5:
         k = rng.randint(1, len(diagram) - 1)
@@ -280,6 +282,39 @@ def plan_case(rng, ctx):
     if ctx.index < 30:
         ctx.sample(kind="plan", mode=mode, plan=show_plan(plan),
                    inputs=repr(inputs), result=repr(got))
+
+
+def twin_value(rng, x):
+    """ A value that is == to x and hashes like x, but is not the same value. """
+    if isinstance(x, bool) or not isinstance(x, int):
+        return x
+    if x in (0, 1) and rng.random() < .4:
+        return bool(x)
+    if x == 0 and rng.random() < .5:
+        return -0.0
+    return float(x)
+
+
+def call_again(rng, ctx, diagram, dom, plan, inputs, first, witness):
+    """
+    Histories: the same diagram object is called again - on values that are
+    equal to the first ones without being the same (1 / 1.0 / True, 0 / -0.0),
+    then once more on the first inputs.  Results are compared through their
+    printed form as well, which tells such values apart.
+    """
+    twins = [twin_value(rng, x) for x in inputs]
+    for label, xs in (("twin-inputs", twins), ("first-inputs-again", inputs)):
+        got, returned = call(ctx, "diagram-call-again", diagram, xs, **witness)
+        if not returned:
+            return
+        got = as_wires(got)
+        expected = fold_eval.fold_plan(dom, plan, xs)
+        ctx.expect("call-equals-plan",
+                   got == expected and repr(got) == repr(expected),
+                   history=label, second_inputs=repr(xs),
+                   got=lambda: repr(got), expected=lambda: repr(expected),
+                   **witness)
+    ctx.count("diagrams_called_three_times")
 
 
 def structural_case(rng, ctx):
@@ -434,6 +469,16 @@ def function_case(rng, ctx):
         ctx.expect("function-algebra", as_wires(got) == expected,
                    what="value", tree=shown, inputs=repr(inputs),
                    got=lambda: repr(got), expected=lambda: repr(expected))
+    # the same Function object called again: same answer
+    if ok:
+        for _ in range(2):
+            got_b, ok_b = call(ctx, "Function-call-again", real, inputs, tree=shown)
+            if ok_b:
+                ctx.expect("function-algebra", as_wires(got_b) == expected
+                           and repr(as_wires(got_b)) == repr(expected),
+                           what="the same Function object called again",
+                           tree=shown, inputs=repr(inputs),
+                           got=lambda: repr(got_b), expected=lambda: repr(expected))
     # the same tree rebuilt with binary operators only must agree as well
     if rng.random() < .3:
         again = realise(model)
